@@ -167,6 +167,7 @@ Step ==
            \* the later lines of the trace are not (their views and transitions describe garbage, and monitors written for
            \* consistent stores could fail to evaluate, which would turn the verdict into a tool error)
            found == IF dirty /\ ~reset THEN {}
+                    ELSE IF e.res = "panic" THEN {"C12.panic"}     \* (the driver could not resolve the arguments of a panicked call)
                     ELSE StateMon(e) \cup C04_Obs(h0, g0, e.S, e.obs)
                          \cup (IF reset \/ l = 1 THEN {} ELSE EventMon(Rec[l-1], e))
        IN /\ viol' = viol \cup {<<l, m>> : m \in found}
